@@ -439,6 +439,9 @@ func c16Data(r *rand.Rand) val.V {
 		// keys spelled like the reserved words (a member name may be any identifier name)
 		{K: "kw", V: val.Map(val.KV{K: "null", V: val.Int("int", 11)}, val.KV{K: "true", V: val.Str("yes")}, val.KV{K: "false", V: val.Int("int", 13)}, val.KV{K: "this", V: val.Map(val.KV{K: "typeof", V: val.Int("int", 17)})},
 			val.KV{K: "ctx", V: val.Str("c")}, val.KV{K: "typeof", V: val.Int("int", 19)}, val.KV{K: "kw", V: val.Int("int", 23)})},
+		// flat keys that spell dotted paths some formula walks (a dotted path reads members, never a key with dots in it)
+		{K: "k.k", V: val.Str("flat")}, {K: "k.k.k", V: val.Str("flat3")}, {K: "st.A", V: val.Int("int", 99)}, {K: "np.k", V: val.Str("flat-np")}, {K: "missing.k", V: val.Str("flat-missing")}, {K: "b.a", V: val.Int("int", 77)},
+		{K: "tm.a", V: val.Int("int", 55)}, {K: "$v.k", V: val.Int("int", 9)},
 		{K: "__p", V: val.Int("int", 2)}, {K: "___p", V: val.Int("int", 3)}, {K: "_p", V: val.Map(val.KV{K: "__p", V: val.Str("deep")}, val.KV{K: "___p", V: val.Str("deeper")})},
 		{K: "lk", V: val.Map(val.KV{K: longKeyA, V: val.Int("int", 3)}, val.KV{K: longKeyB, V: val.Int("int", 4)})},
 		{K: "l", V: val.List(val.Int("int", 1), val.Str("x"))}, {K: "ss", V: val.Typed("strs", val.Str("p"), val.Str("q"))}, {K: "d", V: val.Dec("1.50")}, {K: "fn", V: val.Fn("id")},
@@ -619,7 +622,9 @@ func runC16(w *core.W) {
 		// systematic: every top-level name, then every key below it to depth 2 with both operators, then random deeper
 		bases := []string{"this", "missing", "abs", "toString", "Max", "DATE", "Len", "NOW", "ToInt", "Abs", "MAX", "Year", "tostring", "startwith"}
 		for _, e := range data.M {
-			bases = append(bases, e.K)
+			if !strings.Contains(e.K, ".") { // (flat keys with dots in them are no names a formula can write)
+				bases = append(bases, e.K)
+			}
 		}
 		i := 0
 		for _, b := range bases {
